@@ -119,9 +119,18 @@ pub fn scan(ra: &RefArchive, cfg: &Cfg, source: &[u8], data: &[u8]) -> (BTreeMap
 }
 
 pub fn generate(ctx: &mut Ctx, which: Which) -> Option<Fam> {
+    generate_with(ctx, which, |_| {})
+}
+
+pub fn generate_with(ctx: &mut Ctx, which: Which, tweak: impl FnOnce(&mut scen::CompressSpec)) -> Option<Fam> {
     let big = ctx.tier == Tier::Thorough && gen::chance(1, 40);
     let max_len = if big { 3 << 20 } else { 64 * 1024 };
-    let made = make_archive(ctx, max_len, big, None)?;
+    let made = crate::props::c01::make_archive_with(ctx, max_len, big, None, tweak)?;
+    generate_from(ctx, which, made)
+}
+
+/// the scenario family around a given archive
+pub fn generate_from(ctx: &mut Ctx, which: Which, made: Made) -> Option<Fam> {
     let ra = match decode_archive(&made.archive) {
         Ok(a) => a,
         Err(e) => {
@@ -190,14 +199,33 @@ pub fn generate(ctx: &mut Ctx, which: Which) -> Option<Fam> {
 }
 
 pub fn execute(f: &Fam) -> Observed {
+    execute_with(f, None, &ExecExtra::default())
+}
+
+#[derive(Default, Clone)]
+pub struct ExecExtra {
+    pub verify_header: Option<String>,
+    /// per-request faults of the HTTP server
+    pub net_script: Vec<Option<crate::net::NetFault>>,
+}
+
+/// `presented`: the bytes actually served / stored as the archive (a corrupted copy)
+pub fn execute_with(f: &Fam, presented: Option<&[u8]>, extra: &ExecExtra) -> Observed {
+    let archive_bytes: Vec<u8> = presented.map(|p| p.to_vec()).unwrap_or_else(|| f.made.archive.clone());
     let mut ob = Observed::default();
     let sched = scen::draw_schedule();
     let _ = sched;
     scen::draw_short_reads();
-    let server = if f.http { Some(scen::serve(Arc::new(f.made.archive.clone()))) } else { None };
+    let server = if f.http {
+        let s = scen::serve(Arc::new(archive_bytes.clone()));
+        s.lock().unwrap().script = extra.net_script.clone();
+        Some(s)
+    } else {
+        None
+    };
     if f.level2 {
         if !f.http {
-            scen::put_file("a.cba", &f.made.archive);
+            scen::put_file("a.cba", &archive_bytes);
         } else {
             // the archive written by a CLI compress is still lying around: remove it so that
             // nothing but the server can supply it
@@ -205,7 +233,7 @@ pub fn execute(f: &Fam) -> Observed {
                 let _ = std::fs::remove_file("a.cba");
             });
         }
-        let mut opts = CloneOpts { http: f.http, seed_output: f.seed_output, verify_output: f.verify_output, buffers: f.buffers, verbose: f.verbose, ..Default::default() };
+        let mut opts = CloneOpts { http: f.http, seed_output: f.seed_output, verify_output: f.verify_output, buffers: f.buffers, verbose: f.verbose, verify_header: extra.verify_header.clone(), ..Default::default() };
         let mut stdin_data = None;
         for (i, (_, data)) in f.seeds.iter().enumerate() {
             if f.stdin_at == Some(i) {
@@ -273,7 +301,7 @@ pub fn execute(f: &Fam) -> Observed {
         let (r, archive_file) = if f.http {
             (scen::run_lib_clone_http(out.clone(), seeds, f.seed_output, 0, 0), None)
         } else {
-            let af = SimFile::drawn(f.made.archive.clone());
+            let af = SimFile::drawn(archive_bytes.clone());
             let reader = bitar::archive_reader::IoReader::new(af.clone());
             (crate::cli::run_async(scen::lib_clone(reader, out.clone(), seeds, f.seed_output)), Some(af))
         };
